@@ -156,8 +156,8 @@ class RunObs:
         if err:
             return set(), set(), err
         target = self.step.op["target"]
-        dup = self.scn.get("dup_dep")
-        if dup is not None and target in self.tasks and dup in M.closure(self.tasks, target):
+        if target in self.tasks and any(len(set(self.tasks[t]["deps"])) < len(self.tasks[t]["deps"])
+                                        for t in M.closure(self.tasks, target)):
             return set(), set(), "duplicate-dependency"
         alh = M.at_least_hash(self.flags, self.git)
         needed, cached = M.plan(self.tasks, target, self.rows_before, self.git,
